@@ -96,7 +96,7 @@ def prefer_nice(pb, rows, jitter_zero=False):
     """margins for well-conditioned counterexample models (replay is numeric)"""
     c = []
     for r in rows:
-        c += [L(r[0]) >= 2, L(r[0]) <= 50, L(r[1]) <= Fraction(1, 2), L(r[2]) >= 0, L(r[2]) <= 6, L(r[3]) >= 0, L(r[3]) <= 6]
+        c += [L(r[0]) >= 20, L(r[0]) <= 50, L(r[1]) <= Fraction(1, 2), L(r[2]) >= 0, L(r[2]) <= 6, L(r[3]) >= 0, L(r[3]) <= 6]
         c += [L(r[4]) == 0] if jitter_zero else [L(r[4]) >= 1, L(r[4]) <= 5]
     for e in pb["err"]:
         c += [L(e) >= Fraction(1, 2), L(e) <= 3]
@@ -109,7 +109,22 @@ def prefer_nice(pb, rows, jitter_zero=False):
         if ent[1] is not None:
             c += [L(ent[1]) >= 2, L(ent[1]) <= 20]
         else:
-            c += [L(ent[3]) >= 5, L(ent[3]) <= 30, L(ent[4]) >= 100, L(ent[4]) <= 400, L(ent[5]) >= 40, L(ent[5]) <= 500]
+            # (numbers for which the K-variance rule stays far below its cap under either reading of the P0 unit, so that a
+            #  difference in the rule is visible in the real numbers of the replay)
+            c += [L(ent[3]) >= 5, L(ent[3]) <= 10, L(ent[4]) >= 100, L(ent[4]) <= 200, L(ent[5]) >= 400, L(ent[5]) <= 500]
+    # symbolic unit scales: velocity units within a factor of a few of km/s, the period unit a few days (so that the replay is
+    # well conditioned whatever model the solver's random seed leads to)
+    seen = set()
+    for un in [pb["dunit"]] + [ent[2] for ent in pb["pri"].values()]:
+        sc = un.scale
+        if core.is_sym(sc) and str(sc) not in seen:
+            seen.add(str(sc))
+            dd = int(un.dims.get("time", 0))
+            base = Fraction(1000) / Fraction(86400) ** (-1 - dd) if dd < -1 else Fraction(1000)
+            c += [L(sc) >= base / 2, L(sc) <= base * 2]
+    sc = pb["P_unit"].scale
+    if core.is_sym(sc):
+        c += [L(sc) >= 86400 * 2, L(sc) <= 86400 * 9]
     return c
 
 
